@@ -650,3 +650,12 @@ def replay(case):
     if st.violations:
         return False, "reproduced: %r" % (st.violations[0],)
     return True, "holds"
+
+ENGINE = "E1"
+TECHNIQUE = "bounded exhaustive enumeration of token words / unit documents / repetition families, each executed on the real Lexer and Template against a reference segmenter and a span-tiling oracle"
+LEVEL_TEXT = (
+    "Every string of <=k alphabet tokens (k=3 over 31 tokens, 4-5 over the 14-token core), every document of <=m well-formed units at every junction, "
+    "and every repetition family of the stated shape is lexed and rendered by the real code; outcome class, span tiling (no stepped-over or re-matched "
+    "character), reported positions and the documented rendering are checked on each. Complete within those bounds; no sampling."
+)
+LEVEL_NOTE = "Trusted: CPython re/str/exec, the 60-line reference segmenter (documented rules only, DONT_CARE elsewhere). The polynomial-time clause is measured (doubling) per enumerated family, not proven."
